@@ -15,7 +15,10 @@ RULE = ('dense datasets with/without raw data, features, curated clusters (ids w
         'fresh load_model of the output. non-trivial = every case')
 ASSUMPTIONS = ['uuid4 identifiers are opaque tokens assumed distinct', 'np.save/np.load are transport',
                'for a multi-probe (merged) source the reloaded channel map is the per-probe re-expression of C14; equality of '
-               'channel maps is claimed for single-probe sources only']
+               'channel maps is claimed for single-probe sources only',
+               're-exporting over an output directory that holds an older export (stale cluster/template tables) is exercised '
+               'without a label only: with a label the second renaming pass re-labels the files of the older export, and '
+               'pre-existing output files are outside the quantifier of the property']
 FAMILIES = ('spikes', 'clusters', 'templates', 'channels')
 
 
@@ -50,7 +53,8 @@ def judge(case, impl_res, ans):
         parts = name.split('.')
         if parts[0] not in FAMILIES:
             continue
-        if label and (len(parts) < 4 or parts[-2] != label):
+        stem = name[:-len(parts[-1]) - 1]                 # the name without its extension
+        if label and not (stem.endswith('.' + label) and len(stem) - len(label) - 1 > len(parts[0])):
             return 'SPEC: label %r is not inserted before the extension of %s' % (label, name)
         if not label and len(parts) != 3:
             return 'SPEC: unexpected file name %s without a label' % name
@@ -102,6 +106,9 @@ def nontrivial(case):
 
 
 def tally(rep, case, impl_res, ans):
+    rep.count('label:%r' % case.get('label', ''))
+    if case.get('reexport'):
+        rep.count('re-export over a stale output directory')
     rep.count('merged' if case.get('probes') else 'single')
     rep.count('label:%s' % bool(case.get('label')))
     if not case.get('probes'):
@@ -129,4 +136,7 @@ def gen(tier, rng):
             spec['text_files'] = {'cluster_KSLabel.tsv': 'cluster_id\tKSLabel\n0\tgood\n1\tmua\n'}
         if i % 7 == 3:
             spec['vec2d'] = True
-        yield dict(p=PID, spec=spec, factor=[1, 2.5][i % 2], label=['', 'probe00', ''][i % 3], temp_wh=(i % 4 == 0), rs=i)
+        # labels incl. ones that occur inside ALF file names or look like extensions
+        label = ['', 'probe00', '', 'a', 'raw', '', 'amps', 'npy', 'spikes', 'x.y', 'clusters'][i % 11]
+        yield dict(p=PID, spec=spec, factor=[1, 2.5][i % 2], label=label, temp_wh=(i % 4 == 0), rs=i,
+                   reexport=(i % 5 == 2 and label == ''))
